@@ -1320,8 +1320,12 @@ pub fn aba(seed: u64, cases: usize, out: &mut Sink) {
         out.count("aba_cases");
         match res {
             Ok(Ok(())) => out.nontrivial(&script),
-            Ok(Err(e)) => out.fail(format!("C12 C01 ABA: changeset prepared on root r, another commit rolled back, changeset accepted: {e} [{script}] [replay: vharness lockrec-aba --seed {seed} --cases {}]", case + 1)),
-            Err(_) => out.fail(format!("C12 C01 ABA: PANIC after a changeset prepared on root r was accepted once a competing commit had been rolled back [{script}] panics: {} [replay: vharness lockrec-aba --seed {seed} --cases {}]", PANICS.lock().unwrap().join(" "), case + 1)),
+            // a changeset whose LAST element was prepared by a session on a SUPERSEDED overlay chain (stale_mid=true) is finding F23 (C11);
+            // a changeset prepared on r itself must go through unharmed after the competing commit was rolled back (C12 / C09)
+            Ok(Err(e)) if script.contains("stale_mid=true") => out.fail(format!("C11 F23 superseded-chain: an overlay prepared by a session on a chain whose base had been superseded is accepted after the competing commit was rolled back: {e} [{script}] [replay: vharness lockrec-aba --seed {seed} --cases {}]", case + 1)),
+            Err(_) if script.contains("stale_mid=true") => out.fail(format!("C11 F23 superseded-chain: PANIC after an overlay prepared by a session on a superseded chain was accepted [{script}] panics: {} [replay: vharness lockrec-aba --seed {seed} --cases {}]", PANICS.lock().unwrap().join(" "), case + 1)),
+            Ok(Err(e)) => out.fail(format!("C12 ABA: changeset prepared on root r, another commit rolled back, changeset accepted: {e} [{script}] [replay: vharness lockrec-aba --seed {seed} --cases {}]", case + 1)),
+            Err(_) => out.fail(format!("C12 ABA: PANIC after a changeset prepared on root r was accepted once a competing commit had been rolled back [{script}] panics: {} [replay: vharness lockrec-aba --seed {seed} --cases {}]", PANICS.lock().unwrap().join(" "), case + 1)),
         }
         drop(db);
         let _ = std::fs::remove_dir_all(&dir);
